@@ -37,3 +37,42 @@ pub(crate) fn rec_multi_write(_w: &MultiWriter, now: &mut DeferredNow, _r: &Reco
     verif_support::cell_set(8, s as u64 + 1);
     Ok(())
 }
+
+// ------------------------------------------------------------------------------------------------
+// C04: PrimaryWriter::shutdown (reached by LoggerHandle::shutdown and by the drop of the last
+// handle) flushes the primary channel before / while shutting it down, so that a writer behind it
+// which buffers and relies on the LogWriter trait's default no-op shutdown() does not keep
+// completed records. MultiWriter::flush / ::shutdown are recorders here (what they forward to is
+// decided by c04_multiwriter_forwarding); the other PrimaryWriter arms are cut.
+fn rec_multi_flush(_w: &MultiWriter) -> std::io::Result<()> {
+    verif_support::cell_inc(14);
+    Ok(())
+}
+fn rec_multi_shutdown(_w: &MultiWriter) {
+    // remember how many flushes had happened when the shutdown arrived
+    verif_support::cell_set(16, verif_support::cell_get(14) + 1);
+    verif_support::cell_inc(15);
+}
+fn nop_format(_w: &mut dyn std::io::Write, _now: &mut DeferredNow, _r: &Record) -> std::io::Result<()> {
+    Ok(())
+}
+// @verif prop=C04 tier=quick timeout=600 bounds=PrimaryWriter::Multi,shutdown()
+// PrimaryWriter::shutdown on the Multi writer (file and/or writer output): the writer is flushed at least once and shut down exactly once by the time the call returns.
+#[kani::proof]
+#[kani::unwind(4)]
+#[kani::stub(verif_support::reexp::catch_unwind, verif_support::stub_cu)]
+#[kani::stub(<crate::primary_writer::multi_writer::MultiWriter as crate::writers::LogWriter>::flush, rec_multi_flush)]
+#[kani::stub(<crate::primary_writer::multi_writer::MultiWriter as crate::writers::LogWriter>::shutdown, rec_multi_shutdown)]
+#[kani::stub(<crate::primary_writer::test_writer::TestWriter as crate::writers::LogWriter>::flush, cut_test_flush)]
+#[kani::stub(<crate::primary_writer::std_writer::StdWriter as crate::writers::LogWriter>::flush, cut_std_flush)]
+#[kani::stub(<crate::primary_writer::test_writer::TestWriter as crate::writers::LogWriter>::shutdown, cut_test_shutdown)]
+#[kani::stub(<crate::primary_writer::std_writer::StdWriter as crate::writers::LogWriter>::shutdown, cut_std_shutdown)]
+fn c04_primary_shutdown_flushes() {
+    verif_support::link_all();
+    let pw = PrimaryWriter::multi(crate::Duplicate::None, crate::Duplicate::None, false, nop_format, nop_format, None, None);
+    pw.shutdown();
+    assert!(verif_support::cell_get(14) >= 1);
+    assert!(verif_support::cell_get(15) == 1);
+    kani::cover!(verif_support::cell_get(16) >= 1, "shutdown reached");
+    std::mem::forget(pw);
+}
